@@ -4,7 +4,7 @@
 # 2. stores it under /verif/seeded/<property>-<k>/
 # 3. applies it to /repo, runs the property's quick check, reverts; records whether it was caught.
 set -u
-P=$1; K=$2; OUT=$3; DEST=$4; RE=$5; PKG=${6:-./$DEST/}
+P=$1; K=$2; OUT=$3; DEST=$4; RE=$5; PKG=${6:-./$DEST/}; TPK=${7:-./circuit/ ./ot/ ./p2p/ ./types/ ./gmw/}
 export GOFLAGS=-mod=mod GOPROXY=off
 D=/verif/seeded/$P-$K
 mkdir -p $D
@@ -20,7 +20,7 @@ base_demo=$(go test -count=1 -run "$RE" $PKG 2>&1 | tail -1)
 rm $DEST/zz_seed_demo_test.go
 git apply $D/patch.diff; ap=$?
 build=$(go build ./... 2>&1 | tail -1)
-tests=$(go test -count=1 ./circuit/ ./ot/ ./p2p/ ./types/ ./gmw/ 2>&1 | grep -v "^ok" | head -3)
+tests=$(go test -count=1 $TPK 2>&1 | grep -v "^ok" | head -3)
 cp $D/demo_test.go $DEST/zz_seed_demo_test.go
 mut_demo=$(go test -count=1 -run "$RE" $PKG 2>&1 | grep -E "^(--- FAIL|FAIL|ok)" | head -3 | tr '\n' ' ')
 cd /; git -C /repo worktree remove --force $W
